@@ -19,6 +19,7 @@ import (
 	"verifh/drv"
 	"verifh/fakeredis"
 	"verifh/mon"
+	"verifh/resp"
 )
 
 const addr = "127.0.0.1:6379"
@@ -51,6 +52,29 @@ type event struct {
 func scenario(kind int, h time.Duration, rng *rand.Rand) (string, []event) {
 	ms := time.Millisecond
 	switch kind {
+	case 6:
+		// adds 1 ms before the instants at which a filter that derived a SHORTER lock period p from the window would rotate
+		// (window or half-window truncated to whole seconds / tenths, half of it, two thirds), probes right after those
+		// instants and at each item's deadline
+		var cands []time.Duration
+		for _, p := range []time.Duration{(2 * h).Truncate(time.Second) / 2, h.Truncate(time.Second), h.Truncate(100 * ms), h / 2, 2 * h / 3, h - ms} {
+			if p >= 2*ms && p < h {
+				cands = append(cands, p)
+			}
+		}
+		if len(cands) == 0 {
+			cands = []time.Duration{h / 2}
+		}
+		p := cands[rng.Intn(len(cands))]
+		if (2*h).Truncate(time.Second)/2 < h && (2*h).Truncate(time.Second) > 0 && rng.Intn(2) == 0 {
+			p = (2 * h).Truncate(time.Second) / 2
+		}
+		var ev []event
+		for j := time.Duration(1); j <= 5; j++ {
+			ev = append(ev, event{At: j*p - ms, Add: 1}, event{At: j * p, Probe: true}, event{At: j*p + ms, Probe: true}, event{At: j*p - ms + h, Probe: true})
+		}
+		sort.SliceStable(ev, func(i, j int) bool { return ev[i].At < ev[j].At })
+		return "adds-before-shorter-period-instants", ev
 	case 0: // rotation immediately after the add: the lock taken by the constructor runs out 1 ms after t
 		return "rotation-immediately-after-add", []event{
 			{At: h - ms, Add: 1}, {At: h - ms, Probe: true}, {At: h, Probe: true}, {At: h + ms, Probe: true}, {At: h + h/4, Add: 2}, {At: h + h/2, Probe: true},
@@ -134,6 +158,9 @@ func (tp *tap) hook(e fakeredis.Event) {
 		}
 	}
 }
+
+var refusals = []string{"OOM command not allowed when used memory > 'maxmemory'.", "READONLY You can't write against a read only replica.",
+	"WRONGTYPE Operation against a key holding the wrong kind of value", "ERR Error running script (call to f_0): @user_script:20: -MISCONF Redis is configured to save RDB snapshots"}
 
 type tracked struct {
 	key string
@@ -225,7 +252,13 @@ func (d *driver) play(t *testing.T, c cfg, kind int) (k string, done bool) {
 				hist = hist[len(hist)-16:]
 			}
 		}
-		key := func() string { return fmt.Sprintf("%s hashes=%s", c.base(), k) }
+		shape := ""
+		key := func() string {
+			if k == "0" || name == "" {
+				return fmt.Sprintf("%s hashes=%s%s", c.base(), k, shape)
+			}
+			return fmt.Sprintf("%s hashes=%s window=%v timeline=%s%s", c.base(), k, c.window, name, shape)
+		}
 		fail := func(op string, err error) {
 			run.Inconclusive(fmt.Sprintf("%s returned an error (unsupported by the fake server or outside the property): %v", op, err))
 			run.Observe("op_errors", 1)
@@ -252,6 +285,7 @@ func (d *driver) play(t *testing.T, c cfg, kind int) (k string, done bool) {
 			return out
 		}
 		for _, ev := range evs {
+			shape = ""
 			if wait := time.Until(t0.Add(ev.At)); wait > 0 {
 				time.Sleep(wait)
 			}
@@ -263,6 +297,16 @@ func (d *driver) play(t *testing.T, c cfg, kind int) (k string, done bool) {
 				before := time.Now()
 				var err error
 				op := "Add"
+				var rule *fakeredis.Rule
+				refused := ""
+				if d.rng.Intn(8) == 0 { // the server answers this add script with an error reply instead of running it
+					refused = refusals[d.rng.Intn(len(refusals))]
+					v := resp.Err(refused)
+					rule = srv.Plan(&fakeredis.Rule{Name: "refuse-add", Times: 1, Action: fakeredis.Action{Reply: &v},
+						Match: func(_ *fakeredis.Conn, a []string) bool {
+							return len(a) > 10 && strings.HasPrefix(strings.ToUpper(a[0]), "EVAL") && a[2] == "5"
+						}})
+				}
 				if guard(op, func() {
 					if len(keys) == 1 {
 						err = bf.Add(ctx, keys[0])
@@ -273,19 +317,40 @@ func (d *driver) play(t *testing.T, c cfg, kind int) (k string, done bool) {
 				}) {
 					return
 				}
-				if err != nil {
+				fired := rule != nil && srv.RuleFired(rule) > 0
+				srv.ClearPlan()
+				if err != nil && fired { // refused and reported: nothing was added
+					note(op, keys, "refused: "+err.Error())
+					run.Observe("adds_refused_by_server_and_reported", 1)
+					if !ev.Probe {
+						continue
+					}
+					keys = nil
+				} else if err != nil {
 					fail(op, err)
 					return
+				} else if rule != nil && !fired {
+					run.Inconclusive("the fault rule for the add script did not fire")
+					return
+				}
+				if fired && err == nil {
+					// error reply from the server, success reported to the caller: the items now count as added and must be present
+					run.Observe("adds_refused_by_server_but_reported_successful", 1)
+					shape = " add-answered-with-error-reply=" + strings.SplitN(refused, " ", 2)[0]
+					note("(server replied)", nil, refused)
+					ev.Probe = true
 				}
 				if !time.Now().Equal(before) {
 					run.Inconclusive("virtual time advanced during a call")
 					return
 				}
-				note(op, keys, "ok")
+				if len(keys) > 0 {
+					note(op, keys, "ok")
+					run.Observe("adds", 1)
+				}
 				for _, x := range keys {
 					items = append(items, tracked{x, before})
 				}
-				run.Observe("adds", 1)
 				tp.mu.Lock()
 				k = tp.addK
 				tp.mu.Unlock()
@@ -397,6 +462,9 @@ func (d *driver) play(t *testing.T, c cfg, kind int) (k string, done bool) {
 		run.Observe("bubble_deadlocks", 1)
 	}
 	run.Observe("bubbles", 1)
+	if c.window%time.Second != 0 {
+		run.Observe("bubbles_with_fractional_second_windows", 1)
+	}
 	run.Observe("scenario_"+name, 1)
 	return k, done
 }
@@ -411,8 +479,8 @@ func msList(ts []time.Time, t0 time.Time) []int64 {
 
 func TestC37(t *testing.T) {
 	run := mon.Start(t, "C37", "exploration",
-		"every grid point (expectedNumberOfItems in {0,1,2,3,10,100,1e4,1e6,1e7} x falsePositiveRate in {5e-324,1e-300,1e-12,1e-6,0.01,0.5,0.7,0.7071,0.7072,0.75,0.9,0.99,0.999999,1-2^-53,1,1+2^-52,0,-0.5,NaN,+Inf} x window in {100ms,999ms,1s,1001ms,2s,10s,1m,1h} x read-only option) that NewSlidingBloomFilter accepts is played in synctest bubbles (virtual clock shared by client, fakeredis TIME and key expiry), "+
-			"one timeline per bubble out of six kinds: rotation 1 ms after the add, mid-way, 1 ms before t+window/2, no traffic until the deadline, steady stream, random (events on whole virtual milliseconds); every probe asks for all items added within the last window/2 plus a fresh key at a random position; "+
+		"every grid point (expectedNumberOfItems in {0,1,2,3,10,100,1e4,1e6,1e7} x falsePositiveRate in {5e-324,1e-300,1e-12,1e-6,0.01,0.5,0.7,0.7071,0.7072,0.75,0.9,0.99,0.999999,1-2^-53,1,1+2^-52,0,-0.5,NaN,+Inf} x window in {100ms,999ms,1s,1001ms,1.5s,2s,2.5s,3.7s,10s,10.9s,1m,90.5s,1h, three random windows with fractional seconds} x read-only option (alternating)) that NewSlidingBloomFilter accepts is played in synctest bubbles (virtual clock shared by client, fakeredis TIME and key expiry), "+
+			"one timeline per bubble out of seven kinds: rotation 1 ms after the add, mid-way, 1 ms before t+window/2, no traffic until the deadline, steady stream, random, adds 1 ms before the rotation instants of a hypothetical shorter lock period (window or half-window truncated to seconds / tenths, 1/2, 2/3, minus 1 ms) (events on whole virtual milliseconds); one add in eight is answered by the server with an error reply instead of being executed (an Add that returns nil then still counts as added); every probe asks for all items added within the last window/2 plus a fresh key at a random position; "+
 			"a case = (n, rate, window, option, hash functions on the wire, timeline kind, where the first rotation after the add fell, age bucket of the item, probe at the deadline?), non-trivial when time passed or a rotation happened between add and probe")
 	defer run.Finish()
 	run.Assume("fakeredis TIME, SET PX NX, RENAME, BITFIELD(_RO), key expiry and minilua behave as Redis 7 (harness self tests); fakeredis expires a key at now >= deadline (Redis: now > deadline at millisecond resolution), i.e. never later than Redis would, and all events sit on whole virtual milliseconds so that this cannot matter",
@@ -420,7 +488,14 @@ func TestC37(t *testing.T) {
 	d := &driver{run: run, rng: run.Rand("history")}
 	ns := []uint{0, 1, 2, 3, 10, 100, 10_000, 1_000_000, 10_000_000}
 	rates := []float64{math.SmallestNonzeroFloat64, 1e-300, 1e-12, 1e-6, 0.01, 0.5, 0.7, 0.7071, 0.7072, 0.75, 0.9, 0.99, 0.999999, math.Nextafter(1, 0), 1, math.Nextafter(1, 2), 0, -0.5, math.NaN(), math.Inf(1)}
-	windows := []time.Duration{100 * time.Millisecond, 999 * time.Millisecond, time.Second, 1001 * time.Millisecond, 2 * time.Second, 10 * time.Second, time.Minute, time.Hour}
+	windows := []time.Duration{100 * time.Millisecond, 999 * time.Millisecond, time.Second, 1001 * time.Millisecond, 1500 * time.Millisecond, 2 * time.Second, 2500 * time.Millisecond, 3700 * time.Millisecond,
+		10 * time.Second, 10900 * time.Millisecond, time.Minute, 90500 * time.Millisecond, time.Hour}
+	wr := run.Rand("windows")
+	for len(windows) < 16 { // random windows with a fractional number of seconds
+		if w := time.Duration(1000+wr.Intn(19000)) * time.Millisecond; w%time.Second != 0 {
+			windows = append(windows, w)
+		}
+	}
 	maxBits := float64(uint64(1) << 28)
 	if !run.Quick() {
 		maxBits = float64(uint64(1) << 32)
@@ -429,26 +504,31 @@ func TestC37(t *testing.T) {
 
 	var zero []string
 	rejected := map[string]int{}
+	ci := 0
 	for _, n := range ns {
 		for _, r := range rates {
+			ci++
 			base := cfg{n: n, rate: r}.base()
 			bits := predictedBits(n, r)
 			big := bits > float64(1<<24)
 			i := 0
 			stop := false
 			for round := 0; round < rounds && !stop; round++ {
-				for _, w := range windows {
-					for _, ro := range []bool{false, true} {
+				for wi, w := range windows {
+					for _, ro := range []bool{(wi+round+ci)%2 == 0} { // the read-only option alternates over windows, rounds and configurations
 						c := cfg{n: n, rate: r, window: w, ro: ro}
+						if run.Quick() && w >= time.Second && (wi+ci)%4 == 3 {
+							continue // quick tier: every configuration sees three quarters of the windows, a different quarter is left out each time
+						}
 						if ok, err := probeConstructor(c); !ok {
-							if round == 0 && !ro {
+							if round == 0 {
 								run.Observe("configs_rejected", 1)
 								rejected[err.Error()]++
 							}
 							continue
 						}
 						if bits > maxBits {
-							if round == 0 && !ro {
+							if round == 0 {
 								run.Observe("accepted_configs_skipped_for_memory", 1)
 							}
 							continue
@@ -456,7 +536,7 @@ func TestC37(t *testing.T) {
 						if (big && i >= 2) || (bits > float64(1<<28) && i >= 1) {
 							continue
 						}
-						k, done := d.play(t, c, i%6)
+						k, done := d.play(t, c, (i+ci)%7)
 						i++
 						if i == 1 {
 							run.Observe("configs_accepted_and_run", 1)
@@ -467,7 +547,7 @@ func TestC37(t *testing.T) {
 							stop = true
 							break
 						}
-						if (n == 100 && (r == 0.01 || r == 1e-12) && !ro && (w == time.Second || w == time.Hour)) || (n == 1 && r == 0.5 && !ro && w == 1001*time.Millisecond) {
+						if (n == 100 && (r == 0.01 || r == 1e-12) && (w == time.Second || w == 1500*time.Millisecond || w == time.Hour)) || (n == 1 && r == 0.5 && w == 1001*time.Millisecond) {
 							run.Sample(map[string]any{"config": c.String(), "hash_functions_on_wire": k, "timeline": i - 1})
 						}
 					}
@@ -480,7 +560,7 @@ func TestC37(t *testing.T) {
 	}
 	run.Extra("rejected_configs", rejected)
 	run.Extra("zero_hash_function_configs", zero)
-	run.Require("due_answers_checked", "checks_with_rotation-immediately-after-add", "checks_with_rotation-mid-way", "checks_with_rotation-late", "checks_at_the_deadline", "rotations_observed", "true_negatives", "bitfield_ro_in_scripts")
+	run.Require("due_answers_checked", "checks_with_rotation-immediately-after-add", "checks_with_rotation-mid-way", "checks_with_rotation-late", "checks_at_the_deadline", "rotations_observed", "true_negatives", "bitfield_ro_in_scripts", "adds_refused_by_server_and_reported", "scenario_adds-before-shorter-period-instants", "bubbles_with_fractional_second_windows")
 }
 
 // probeConstructor tells whether the constructor's own validation accepts the configuration, without a server:
